@@ -32,7 +32,8 @@ def expected_tick(ex, r, s):
             disc = ex.oracle_disc()
             f = ffield.fdata(disc.model, ex.world.mesh, [np.array(d, copy=True) for d in s.data_in], t=s.t_in)
             f.data = [np.array(d, copy=True) for d in s.data_in]
-            s.etick = np.array(disc.calc_timestep(f, r.cfl), dtype=float)
+            with np.errstate(all="ignore"):
+                s.etick = np.array(disc.calc_timestep(f, r.cfl), dtype=float)
     return s.etick
 
 
@@ -506,6 +507,11 @@ def check_c08(r, ex, stats):
 
 
 def _model_monitor_value(traj, idx, ent):
+    with np.errstate(all="ignore"):
+        return _model_monitor_value_(traj, idx, ent)
+
+
+def _model_monitor_value_(traj, idx, ent):
     q = traj.states[idx]
     disc = traj.disc
     if ent["type"] == "residual":
